@@ -136,6 +136,14 @@ fn overwrite_model_cases<T: Zoo>(ctx: &mut Ctx, rng: &mut Rng) {
                 let idx = ctx.add_case(coq, json!({"type": T::NAME, "options": format!("{:?}", o2), "overwrite": kind, "path": p, "from_type": match &ft { Out::Ok(f) => format!("Ok({:?})", f), Out::Err(e) => format!("Err({})", e), Out::Panic(p) => format!("Panic({})", p) }, "from_samples": match &fs { Out::Ok(f) => format!("Ok({:?})", f), Out::Err(e) => format!("Err({})", e), Out::Panic(p) => format!("Panic({})", p) }}), true);
                 if let Out::Panic(pn) = &ft { ctx.fail(idx, "panic", format!("from_type panics: {}", pn)); }
                 if let Out::Panic(pn) = &fs { ctx.fail(idx, "panic", format!("from_samples panics: {}", pn)); }
+                // from_type and from_samples (on a collection that covers the type) agree under an overwrite as they do without one: the same
+                // verdict on the path, and the same schema when the path exists
+                match (&ft, &fs) {
+                    (Out::Ok(a), Out::Ok(b)) => if a != b { ctx.fail(idx, "tracers_disagree_under_overwrite", format!("{}: overwrite ({}) at {:?}: from_type gives {:?}, from_samples gives {:?}", T::NAME, kind, p, a, b)); },
+                    (Out::Ok(_), Out::Err(e)) => ctx.fail(idx, "tracers_disagree_under_overwrite", format!("{}: overwrite ({}) at {:?} is applied by from_type but refused by from_samples: {}", T::NAME, kind, p, e)),
+                    (Out::Err(e), Out::Ok(_)) => ctx.fail(idx, "tracers_disagree_under_overwrite", format!("{}: overwrite ({}) at {:?} is applied by from_samples but refused by from_type: {}", T::NAME, kind, p, e)),
+                    _ => {}
+                }
                 if kind != "exact" { if let Out::Ok(_) = &ft { ctx.fail(idx, "overwrite_error_case_accepted", format!("{}: overwrite ({}) at {:?} is accepted by from_type", T::NAME, kind, p)); } }
             }
         }
